@@ -233,8 +233,10 @@ class PoolWakeState {
     if (mask == 0) {
       waiter.bump();
     } else {
-      int32_t numSleepers = detail::countSetBits(mask);
-      waiter.bumpAndWakeN(numSleepers, groupSize_);
+      // The group's sleepers share one futex word and the kernel picks which waiters a wake
+      // releases, so waking only as many waiters as there are targeted sleepers can release
+      // non-targeted ones and leave a targeted sleeper parked with work in its ring.
+      waiter.bumpAndWakeAll();
     }
   }
 
